@@ -63,16 +63,27 @@ TRANSLATORS = ["tables.py", "shapes.py", "locks.py", "access.py"]
 
 
 def regenerate():
-    """run every translator; returns list of (name, message) for those that failed"""
+    """run every translator; returns list of (name, message) for those that failed.
+    A translator is skipped when neither it nor any file under /repo/include changed since its last
+    successful run and its output is still the file it wrote (content hashes, not timestamps)."""
     errs = []
     with Lock("coq"):
         for t in TRANSLATORS:
             p = os.path.join(VERIF, "translate", t)
             if not os.path.exists(p):
                 continue
-            rc, out = sh([sys.executable, p], timeout=120)
+            outv = os.path.join(COQ, "Gen_" + t[:-3].capitalize() + ".v")
+            stamp = os.path.join(BUILD, ".translate_" + t + ".stamp")
+            key = file_hash(repo_include_files() + [p, outv])
+            if os.path.exists(outv) and os.path.exists(stamp) and open(stamp).read() == key:
+                continue
+            rc, out = sh([sys.executable, p], timeout=300)
             if rc != 0:
                 errs.append((t, out.strip()[-2000:]))
+                if os.path.exists(stamp):
+                    os.remove(stamp)
+            else:
+                open(stamp, "w").write(file_hash(repo_include_files() + [p, outv]))
     return errs
 
 
